@@ -212,7 +212,7 @@ def history_strategy(tier):
 PARTS = [
     Part("fault-position-sweep", "enum", check, cases=sweep_cases, exhaustive=True),
     Part("random-histories", "hyp", check, strategy=history_strategy,
-         examples={"quick": 250, "thorough": 3000}, shards={"quick": 4, "thorough": 16}),
+         examples={"quick": 250, "thorough": 12000}, shards={"quick": 4, "thorough": 16}),
 ]
 
 
